@@ -236,11 +236,15 @@ class Exec:
             self.elem = {}
             return r_
         if k == "for":
+            saved_ce, self._cont_envs = getattr(self, "_cont_envs", None), None     # a nested loop's `continue` is its own
             r_ = self.do_for(node, out)
+            self._cont_envs = saved_ce
             self.elem = {}
             return r_
         if k in ("while", "do"):
+            saved_ce, self._cont_envs = getattr(self, "_cont_envs", None), None
             r_ = self.do_while(node, out)
+            self._cont_envs = saved_ce
             self.elem = {}
             return r_
         if k == "forrange":
@@ -258,6 +262,8 @@ class Exec:
             out.append({"e": "break", "l": node["l"]})
             return "break"
         if k == "continue":
+            if getattr(self, "_cont_envs", None) is not None:
+                self._cont_envs.append(dict(self.env))
             out.append({"e": "continue", "l": node["l"]})
             return "continue"
         if k == "null":
@@ -330,6 +336,11 @@ class Exec:
         if is_ref_type(t):
             self.env[vid] = ("alias", self.lv(init, out)) if init is not None else ("unk", "ref")
             return
+        if "(lambda at" in t and init is not None:
+            lam = next((n_ for n_ in walk(init) if n_.get("k") == "lambda"), None)
+            if lam is not None:
+                self.env[vid] = ("lambda", lam.get("cusr"), lam.get("l"))
+                return
         tracked = is_scalar_type(t) and vid not in self.addr_taken and "extent" not in dv and "vla" not in dv
         if tracked:
             if init is not None:
@@ -482,13 +493,18 @@ class Exec:
         if vid is not None:
             self.env[vid] = lv_term
         scratch = []
+        saved_ce = getattr(self, "_cont_envs", None)
+        self._cont_envs = []
         try:
             self.block(body, scratch)
+            cont_envs = self._cont_envs
+            self._cont_envs = None
             after_body = {i: self.env.get(i) for i in cands}
             for q in latch_nodes:
                 self.ev(q, scratch, stmt=True)
             fin = {i: self.env.get(i) for i in cands}
         finally:
+            self._cont_envs = saved_ce
             self.env = env0
             self.mem.clear()
             self.mem.update(mem0)
@@ -501,8 +517,13 @@ class Exec:
                            for st in sym.subterms(t))
         for i in cands:
             f = fin[i]
-            if f is None or ("continue" in jumps and after_body[i] != marks[i]):
+            if f is None:
                 continue
+            if "continue" in jumps and after_body[i] != marks[i]:
+                # stepped inside the body of a loop with `continue`: fine when every `continue` is reached with the same value
+                # as the end of the body (all steps happen before the first `continue`)
+                if not cont_envs or any(ce.get(i) != after_body[i] for ce in cont_envs):
+                    continue
             g = f
             while g[0] == "cast":
                 g = g[2]
@@ -1061,6 +1082,8 @@ class Exec:
             return ("call", "{}", tuple(self.ev(a, out) for a in e.get("args", [])))
         if k == "zeroinit":
             return ZERO
+        if k == "lambda":
+            return ("lambda", e.get("cusr"), e.get("l"))
         if k == "stmtexpr":
             self.block(e.get("body"), out)
             return ("unk", "stmtexpr")
@@ -1243,7 +1266,7 @@ class Exec:
             return ("unk", "indirect@%s" % e["l"])
         if k == "opcall" and e.get("cusr") in self.v.decls:
             f = self.v.decls[e["cusr"]]
-            if f.get("record"):
+            if f.get("record") or f.get("lambda"):
                 this = sym.addr(args[0]) if args else None
                 args = args[1:]
         nbefore = len(out)
@@ -1263,6 +1286,45 @@ class Exec:
                     out.append({"e": "store", "lv": lvt, "op": "=", "val": val, "l": e["l"], "byref": name})
                     self.remember(lvt, None)
         return r
+
+    def _std_functor_algorithm(self, e, name, args, out):
+        """std::transform(first, last, out, f) / std::generate_n(first, n, g) / std::generate(first, last, g) over raw pointers
+        with a closure written in this function: the element loop with the closure's body applied to each element"""
+        an = [a for a in e.get("args", []) if isinstance(a, dict)]
+        if any(a is None for a in args) or len(an) != len(args):
+            return False
+        ptr = lambda n_: strip_cv(n_.get("t", "")).endswith("*")
+        fn = args[-1]
+        if not (isinstance(fn, tuple) and fn and fn[0] == "lambda") or fn[1] not in self.v.defs:
+            return False
+        callee = self.v.defs[fn[1]]
+        if name == "std::transform" and len(args) == 4 and ptr(an[0]) and ptr(an[1]) and ptr(an[2]):
+            (pa, oa), (pb, ob) = sym.ptr_split(args[0]), sym.ptr_split(args[1])
+            if pa != pb:
+                return False
+            count, src, dst = sym.sub(ob, oa), args[0], args[2]
+        elif name == "std::generate_n" and len(args) == 3 and ptr(an[0]):
+            count, src, dst = args[1], None, args[0]
+        elif name == "std::generate" and len(args) == 3 and ptr(an[0]) and ptr(an[1]):
+            (pa, oa), (pb, ob) = sym.ptr_split(args[0]), sym.ptr_split(args[1])
+            if pa != pb:
+                return False
+            count, src, dst = sym.sub(ob, oa), None, args[0]
+        else:
+            return False
+        Exec.serial += 1
+        u = sym.sym("u%d@%d" % (Exec.serial, e["l"]))
+        body = []
+        node2 = {"k": "opcall", "cusr": fn[1], "l": e["l"], "t": callee.ret, "callee": callee.q}
+        val = self.emit_call(node2, callee.q, [sym.idx(src, u)] if src is not None else [], body)
+        if val is None:
+            return False
+        st = {"e": "store", "lv": sym.idx(dst, u), "op": "=", "val": val, "l": e["l"], "t": "", "ct": ""}
+        body.append(st)
+        out.append({"e": "loop", "var": u, "lo": ZERO, "cmp": "<", "hi": count, "step": I(1), "body": body, "l": e["l"],
+                    "name": "u", "algorithm": name})
+        self.forget_stores_in(body)
+        return True
 
     def _std_algorithm(self, e, name, args, out):
         """std::fill / fill_n / copy / copy_n over raw pointers are the element loops they stand for:
@@ -1298,6 +1360,8 @@ class Exec:
 
     def emit_call(self, e, name, args, out, this=None, array=None):
         self.elem = {}
+        if e.get("k") == "construct" and len(args) == 1 and isinstance(args[0], tuple) and args[0] and args[0][0] == "lambda":
+            return args[0]            # copy of a closure object
         usr = e.get("cusr")
         line = e["l"]
         # std::string temporaries built from literals: the value is the literal
@@ -1308,6 +1372,9 @@ class Exec:
                 return args[0]
             if len(args) == 1 and args[0] is not None:
                 return args[0]     # copy construction
+        if name in ("std::transform", "std::generate_n", "std::generate", "std::for_each") and self._std_functor_algorithm(e, name, args, out):
+            Exec.serial += 1
+            return ("unk", "%s-result:%d" % (name, Exec.serial))
         if name in ("std::fill", "std::fill_n", "std::copy", "std::copy_n") and self._std_algorithm(e, name, args, out):
             if name == "std::fill":
                 return None
@@ -1322,7 +1389,17 @@ class Exec:
         if callee is not None and self.depth < 12 and self.hooks.want_inline(self, callee, e):
             sub = Exec(self.v, callee, args=args, this=this, hooks=self.hooks, casts=self.casts,
                        depth=self.depth + 1, mem=self.mem)
+            if callee.get("lambda"):
+                # a closure sees the variables of the function that wrote it (captures)
+                for cid, cval in self.env.items():
+                    sub.env.setdefault(cid, cval)
+                sub.this = self.this
             body, st = sub.run()
+            if callee.get("lambda"):
+                casg, _ = assigned_ids([callee.d.get("body")])
+                for cid in casg:
+                    if cid in self.env and cid in sub.env:
+                        self.env[cid] = sub.env[cid]          # variables captured by reference and assigned inside
             ret = None
             rets = [x for x in _returns(body)]
             if rets:
